@@ -299,6 +299,74 @@ fn peel_sweep(tier: Tier) -> Sweep {
     })
 }
 
+// The computed-annotation family: contexts in which the annotation of a binder is a type only after
+// unfolding definitions (universe aliases, universe-valued functions, aliases of aliases), so that the
+// checks a binder's domain goes through have to look entries up at the right depth. Every program is a
+// prefix group, one to three binders annotated with names of the prefix, and a body.
+pub fn computed_annotation_family() -> Vec<String> {
+    let prefixes = [
+        "aa : type = int",
+        "uu : type = type; aa : uu = int",
+        "uu : type = type; ff : (bool -> uu) = ((b : bool) => if b then int else bool); aa : uu = ff true",
+        "kk : (type -> type) = ((c : type) => c); aa : (kk type) = int",
+        "uu : type = type; vv : uu = uu; aa : vv = int",
+        "uu : type = type; aa : uu = int; bb : uu = aa",
+        "aa : uu = int; uu : type = type",
+    ];
+    let binders = [
+        "(xx : aa) => ",
+        "{xx : aa} => ",
+        "(tt : type) => (xx : aa) => ",
+        "(xx : aa) => (yy : aa) => ",
+        "(xx : aa) => (gg : aa -> aa) => ",
+        "(qq : (pp : aa) -> type) => (xx : aa) => ",
+    ];
+    let bodies = ["xx + 1", "xx", "(zz : aa = xx; zz + 1)", "(ww : aa) => xx + ww", "if xx < 1 then xx else 0", "(hh : (aa -> aa) = ((nn : aa) => nn + xx); hh 2)"];
+    let mut out = vec![];
+    for p in prefixes {
+        for b in binders {
+            for body in bodies {
+                out.push(format!("{p}; {b}{body}"));
+            }
+        }
+    }
+    out
+}
+
+fn computed_annotation_sweep() -> Sweep {
+    let g = crate::model::grammar::Grammar::load();
+    let fam = Rc::new(computed_annotation_family());
+    let f2 = fam.clone();
+    Sweep::new(
+        "computed-annotation family peeled 1-4 binders deep",
+        fam.len() as u64,
+        move |idx| {
+            let text = &fam[idx as usize];
+            let Some(m) = surface::parse_text(&g, text).and_then(|s| surface::resolve(&s, &[]).ok()) else {
+                crate::infra::machinery(&format!("computed-annotation program is not read by the grammar / scope model: {text}"));
+                return;
+            };
+            count!("programs");
+            count!("computed_annotation_programs");
+            for levels in 1..=4 {
+                let (blocks, body) = peel(&m, levels);
+                if blocks.len() < levels {
+                    break;
+                }
+                count!("contexts_with_definitions");
+                check_open(text, &blocks, &body, None);
+            }
+        },
+        move |idx| f2[idx as usize].clone(),
+    )
+    .with_post_abort(|_, kind| AbortVerdict::Violation {
+        sub: "abnormal-ending".to_owned(),
+        input: String::new(),
+        expected: "a verdict".to_owned(),
+        actual: kind.to_owned(),
+    })
+}
+
 // For C12: holed patterns against instances under contexts with parameters and definitions.
 pub fn unify_under_context_sweep(tier: Tier) -> Sweep {
     let ps = programs(tier);
@@ -376,12 +444,12 @@ impl Prop for C18 {
         "C18"
     }
     fn sweeps(&self, tier: Tier) -> Vec<Sweep> {
-        vec![peel_sweep(tier)]
+        vec![peel_sweep(tier), computed_annotation_sweep()]
     }
     fn evidence(&self, tier: Tier) -> EvidenceSpec {
         EvidenceSpec {
             level: "exploration",
-            rule: "every closed type-directed program that starts with a lambda or a definition group is peeled one, two and three binders deep (contexts mixing plain parameters and groups of one and two definitions, i.e. entries with offsets 0, 1, 2 looked up from depths 0..5); the context vectors are built exactly as the checker pushes them and the real type_check, normalize_weak_head and unify are called on the open body; every fourth program additionally in every single-point perturbation (ill-typed open terms, faults inside nested scopes). Oracle: same verdict as the closed program; closed type convertible (reference) with the open type bound the same way; the weak-head normal form under the context convertible with the term; unify(t, nf t) true under the context and closed; after every call, accepted or rejected, both context vectors pointer-identical with the same offsets. evaluations = (context, open term) pairs; non-trivial = those whose verdict and type were compared".to_owned(),
+            rule: "every closed type-directed program that starts with a lambda or a definition group is peeled one, two and three binders deep (contexts mixing plain parameters and groups of one and two definitions, i.e. entries with offsets 0, 1, 2 looked up from depths 0..5); the context vectors are built exactly as the checker pushes them and the real type_check, normalize_weak_head and unify are called on the open body; every fourth program additionally in every single-point perturbation (ill-typed open terms, faults inside nested scopes); plus the computed-annotation family (252 programs: a prefix group with universe aliases, universe-valued functions or aliases of aliases, one to three binders annotated with names of the prefix, six bodies) peeled one to four binders deep. Oracle: same verdict as the closed program; closed type convertible (reference) with the open type bound the same way; the weak-head normal form under the context convertible with the term; unify(t, nf t) true under the context and closed; after every call, accepted or rejected, both context vectors pointer-identical with the same offsets. evaluations = (context, open term) pairs; non-trivial = those whose verdict and type were compared".to_owned(),
             assumptions: vec!["reference conversion with fuel; contexts come from peeling well-typed programs, so they are well formed".to_owned()],
             evaluations: "evaluations",
             nontrivial: "nontrivial",
@@ -390,7 +458,7 @@ impl Prop for C18 {
             traces: None,
             exhaustive: true,
             bounds: json!({"program_nodes": sem::typed_size(tier), "peel_depth": 3}),
-            minimums: vec![("types_agree", 20_000), ("rejected_both", 5_000), ("contexts_with_definitions", 5_000), ("normal_forms_agree", 20_000), ("unify_agrees", 20_000)],
+            minimums: vec![("types_agree", 20_000), ("rejected_both", 5_000), ("computed_annotation_programs", 252), ("contexts_with_definitions", 5_000), ("normal_forms_agree", 20_000), ("unify_agrees", 20_000)],
         }
     }
 }
